@@ -35,17 +35,21 @@ def gen_case(rng):
     z2 = z + rng.randint(0, 3)
     al = rng.choice(['ta', 'ta', 'TA', None])
     q = al or 't1'
-    tcond = {'none': None, 'gt': f'{q}.t > {z}', 'ge': f'{q}.t >= {z}', 'eq': f'{q}.t = {z}', 'lt': f'{q}.t < {z}', 'le': f'{q}.t <= {z}',
-             'between': f'{q}.t between {z} and {z2}', 'gt_latest': f'{q}.t > latest', 'eq_latest': f'{q}.t = latest'}[kind]
+    # identifiers are not case sensitive here: the order / partition columns are spelled with upper-case letters now and then,
+    # in the query and (independently) in the model's metadata
+    tc = rng.choice(['t', 't', 't', 'T'])
+    up = lambda c: c.upper() if rng.random() < 0.2 else c
+    tcond = {'none': None, 'gt': f'{q}.{tc} > {z}', 'ge': f'{q}.{tc} >= {z}', 'eq': f'{q}.{tc} = {z}', 'lt': f'{q}.{tc} < {z}', 'le': f'{q}.{tc} <= {z}',
+             'between': f'{q}.{tc} between {z} and {z2}', 'gt_latest': f'{q}.{tc} > latest', 'eq_latest': f'{q}.{tc} = latest'}[kind]
     tterm = {'none': 'TNone', 'gt': f'(TGt {z})', 'ge': f'(TGe {z})', 'eq': f'(TEq {z})', 'lt': f'(TLt {z})', 'le': f'(TLe {z})',
              'between': f'(TBetween {z} {z2})', 'gt_latest': 'TGtLatest', 'eq_latest': 'TEqLatest'}[kind]
     pf = []
     for c in gcols:
         r = rng.random()
         if r < 0.25:
-            pf.append(f'{q}.{c} = {rng.randint(0, 2)}')
+            pf.append(f'{q}.{up(c)} = {rng.randint(0, 2)}')
         elif r < 0.4:
-            pf.append(f'{q}.{c} in ({rng.randint(0, 1)}, {rng.randint(1, 2)})')
+            pf.append(f'{q}.{up(c)} in ({rng.randint(0, 1)}, {rng.randint(1, 2)})')
         elif r < 0.5:
             pf.append(f'{q}.{c} >= {rng.randint(0, 2)}')
         elif r < 0.7:
@@ -71,7 +75,8 @@ def gen_case(rng):
     if rng.random() < 0.3:
         limit = rng.randint(1, 4)
         sql += f' limit {limit}'
-    return dict(sql=sql, gcols=gcols, w=w, tterm=tterm, kind=kind, pf=pf, tcond=tcond, limit=limit, q=q)
+    return dict(sql=sql, gcols=gcols, w=w, tterm=tterm, kind=kind, pf=pf, tcond=tcond, limit=limit, q=q,
+                meta_ob=rng.choice(['t', 't', 't', 'T']), meta_g=[up(c) for c in gcols])
 
 
 REJECT = [' order by ta.t', ' group by ta.g', ' offset 2']
@@ -123,8 +128,8 @@ def run(tier, seed, replay=None):
     struct_bad = []
     skipped = {}
     for cs in cases_in:
-        meta = [{'name': 'tp', 'integration_name': 'proj', 'timeseries': True, 'order_by_column': 't',
-                 'group_by_columns': list(cs['gcols']), 'window': cs['w']}]
+        meta = [{'name': 'tp', 'integration_name': 'proj', 'timeseries': True, 'order_by_column': cs.get('meta_ob', 't'),
+                 'group_by_columns': list(cs.get('meta_g', cs['gcols'])), 'window': cs['w']}]
         try:
             plan = plan_query(parse_sql(cs['sql'], 'mindsdb'), integrations=['int1', 'proj'], predictor_metadata=meta)
         except Exception as e:
